@@ -321,6 +321,11 @@ SigKnownKey(e) ==
                            \/ (Len(P) > Len(h) /\ SubSeq(P, 1, Len(h)) = h)            \* bytes behind the digest
                            \/ (Len(P) < Len(h) /\ P \o Zeros(Len(h) - Len(P)) = h)     \* short payload, zero-extended
                      THEN "C05-rsa-basic-payload-length-not-checked"
+                ELSE IF e.pad = "pkcs1" /\ ~RsaCore(e, s)
+                        /\ LET T == IF e.flag = 0 THEN Sha256Id \o h ELSE h IN
+                           /\ BLenBytes(N) - 3 - Len(T) = 7          \* k = tLen + 10: RFC 8017 9.2 step 3 refuses to encode
+                           /\ m = BFromBE(<<0, 1>> \o Ones(7) \o <<0>> \o T)
+                     THEN "C05-rsa-pkcs1-seven-byte-padding-accepted"
                 ELSE ""
       [] e.op = "bbs_ver" ->
             \* identity public key: e(sigma, [H(m)]G2 + O) = e(G1, G2) for sigma = [1 / H(m)]G1
